@@ -307,3 +307,89 @@ CONTRACTS['modularity_louvain_und_sign#level'] = Contract(
                                   "lemma_umul_linear(d0, dQ0[mb], 0), lemma_umul_linear(d1, dQ1[mb], 0))"},
     ghost_before={'m[u] = mb + 1': "m_pre = snapshot(m)"},
     ensures=[('level-never-lowers-the-signed-quality', (QSL % ('m', 'm')) + " >= " + (QSL % ('m0', 'm0')))])
+
+
+# ---- modularity_louvain_und, WHOLE FUNCTION (hierarchy=False): composition of the hierarchy levels ------------------------------------
+# The node-moving sweeps of one level are used MODULARLY through the fragment contract modularity_louvain_und#level above
+# (its requires become obligations here, its ensures are assumed here, its own obligations are discharged from the same
+# source lines).  What is proved here is everything around it: the outer `while True` loop with the lists ci / q, the
+# relabelling by np.unique, the composition of the label vectors, the aggregation of the working matrix, the formula of q,
+# the stopping test and the returned pair.
+# Ghost state: Worig (the argument), NN (its size), cur (integer copy of ci[h]: the label of every ORIGINAL node at the
+# current level), curp (the same one level earlier), sing (singleton labels), nl (size of the level matrix before `n = np.max(m)`).
+def _setup_louvain_full(eng, st):
+    N = z3.Int('N')
+    st.pc.append(N >= 1)
+    st.env['W'] = alloc(st, 2, z3.Const('W0', A2R), (N, N), REAL)
+    st.ghost['NN'] = N
+    st.env['gamma'] = z3.Real('gamma')
+    st.env['hierarchy'] = False
+    st.env['seed'] = Opaque('seed')
+
+
+_LV_OUTER = [
+    ('H-level-index', "h >= 0"),
+    ('LISTS-one-entry-per-level', "And(len(ci) == h + 1, len(q) == h + 1)"),
+    ('SIZES', "And(n >= 1, n <= NN, n0 == NN, s == tsum(Worig, NN), s > 0)"),
+    ('CUR-labels-of-original-nodes', "forall(lambda x: implies(inr(x, NN), And(cur[x] >= 1, cur[x] <= n, ci[h][x] == cur[x])))"),
+    ('CUR-every-label-1..n-is-used', "forall(lambda l: implies(And(l >= 0, l < n), And(inr(wcur[l], NN), cur[wcur[l]] == l + 1)))"),
+    ('CUR-level-0-is-singletons', "implies(h == 0, forall(lambda x: implies(inr(x, NN), cur[x] == x + 1)))"),
+    ('W-is-the-aggregate-of-the-argument', "forall(lambda a, b: implies(And(inr(a, n), inr(b, n)), W[a, b] == agg(Worig, cur, a, b, NN)))"),
+    ('W-symmetric', "forall(lambda a, b: implies(And(inr(a, n), inr(b, n)), W[a, b] == W[b, a]))"),
+    ('W-total', "s == tsum(W, n)"),
+    ('Q-of-level', "And(implies(h >= 1, q[h] == Qmod(Worig, cur, gamma, NN)), implies(h == 0, q[h] == -1))"),
+    ('QMONO-never-below-singletons', "Qmod(Worig, cur, gamma, NN) >= Qmod(Worig, sing, gamma, NN)"),
+    ('FRAME-argument-untouched', "unchanged('W')"),
+]
+
+CONTRACTS['modularity_louvain_und'] = Contract(
+    MOD, 'modularity_louvain_und', ['W', 'gamma', 'hierarchy', 'seed'], setup=_setup_louvain_full, nonlinear='uf',
+    requires=[('undirected', "forall(lambda x, y: implies(And(inr(x, NN), inr(y, NN)), W[x, y] == W[y, x]))"), ('positive-total-weight', "tsum(W, NN) > 0")],
+    use_fragments={'level': dict(contract=CONTRACTS['modularity_louvain_und#level'], bind={'n0': 'n'}, bind_post={'m0': "lam1(lambda y: y + 1, n)"},
+                                 declare={'m': ('int1', 'n'), 'Knm': ('mat', 'n', 'n')}, ghost_after='m_after_level = snapshot(m)')},
+    loops={
+        'while True': {'name': 'levels', 'inv': _LV_OUTER, 'ghosts': ['cur', 'wcur'], 'lists': {'ci': 'h + 1', 'q': 'h + 1'}, 'shapes': {'W': ('n', 'n')}},
+        'for i in range(n)#0': {'name': 'compose', 'inv': [
+            ('COMPOSE-done', "forall(lambda x: implies(And(inr(x, NN), curp[x] <= _it), ci[h][x] == m[curp[x] - 1]))"),
+            ('COMPOSE-todo', "forall(lambda x: implies(And(inr(x, NN), curp[x] > _it), ci[h][x] == 0))")]},
+        'for i in range(n)#1': {'name': 'agg-rows', 'inv': [
+            ('AGG-done', "forall(lambda a, b: implies(And(inr(a, n), inr(b, n), Or(a < _it, b < _it)), W1[a, b] == agg(W, m, a, b, nl)))")]},
+        'for j in range(i, n)': {'name': 'agg-cells', 'inv': [
+            ('AGG-done', "forall(lambda a, b: implies(And(inr(a, n), inr(b, n), Or(a < i, b < i)), W1[a, b] == agg(W, m, a, b, nl)))"),
+            ('AGG-current', "forall(lambda b: implies(And(b >= i, b < i + _it), And(W1[i, b] == agg(W, m, i, b, nl), W1[b, i] == agg(W, m, b, i, nl))))"),
+            ('i-in-range', "inr(i, n)")]},
+    },
+    ghost_after={
+        # anchored before the statements they are about, so that an edit of the formula of q / of the returned pair is judged
+        # against the lemmas instead of leaving the contract unbound
+        'W = W1': "assume(lemma_agg_compose(Worig, cur, W, lam1(lambda y: y + 1, n), cur, gamma, NN, n), lemma_q_from_aggregate(W, lam2(lambda a, b: W[a, b] / s, n), Worig, cur, gamma, s, n, NN))",
+        'ci = np.array(ci, dtype=int)': "assume(lemma_relabel(Worig, ci[h - 1], curp, gamma, NN), lemma_relabel(Worig, ci[h], cur, gamma, NN))",
+        'n0 = n': "Worig = snapshot(W); sing = lam1(lambda y: y + 1, NN); cur = lam1(lambda y: y + 1, NN); wcur = lam1(lambda l: l, NN); assume(lemma_agg_identity(Worig, cur, NN))",
+        'h += 1': "curp = cur; wcurp = wcur; nl = n; assume(lemma_relabel(W, m, m_after_level, gamma, n))",
+        'for i in range(n)#0': "cur = lam1(lambda x: m[curp[x] - 1], NN); wcur = lam1(lambda l: wcurp[unique_witness(l)], NN)",
+        'W1 = np.zeros((n, n))': "assume(lemma_agg_symm(W, m, nl))",
+    },
+    ghost_before={
+        'W = W1': "Wl = snapshot(W); assume(lemma_agg_compose(Worig, curp, Wl, m, cur, gamma, NN, nl), lemma_agg_compose(Worig, curp, Wl, lam1(lambda y: y + 1, nl), curp, gamma, NN, nl))",
+    },
+    ensures=[
+        ('C07-not-worse-than-singletons', "Qmod(Worig, result(0), gamma, NN) >= Qmod(Worig, sing, gamma, NN)"),
+        ('C02-q-is-modularity-of-returned-labels-unless-no-level-was-accepted',
+         "Or(result(1) == Qmod(Worig, result(0), gamma, NN), And(result(1) == -1, forall(lambda x: implies(inr(x, NN), result(0)[x] == x + 1))))"),
+        ('C02-labels-in-1..k', "And(nl >= 1, nl <= NN, forall(lambda x: implies(inr(x, NN), And(result(0)[x] >= 1, result(0)[x] <= nl))))"),
+        ('C02-every-label-1..k-used', "forall(lambda l: implies(And(l >= 1, l <= nl), And(inr(wcurp[l - 1], NN), result(0)[wcurp[l - 1]] == l)))"),
+        ('argument-untouched', "unchanged('W')"),
+    ])
+
+
+def _louvain_ghosts(args, result, locs):
+    import numpy as np
+    W = np.asarray(args['W'], dtype=float)
+    N = len(W)
+    lab = np.asarray(result[0])
+    k = int(lab.max())
+    wit = np.array([int(np.flatnonzero(lab == l + 1)[0]) if np.any(lab == l + 1) else -1 for l in range(k)] + [-1] * (N - k))
+    return {'Worig': W, 'NN': N, 'sing': np.arange(N) + 1, 'nl': k, 'wcurp': wit}
+
+
+CONTRACTS['modularity_louvain_und'].concrete_ghosts = _louvain_ghosts
